@@ -513,6 +513,13 @@ def run_scriptplan(tjp_file: str, output_dir: Optional[str] = None) -> tuple[boo
                 error_output = stderr_capture.getvalue()
                 return (False, error_output or "Report generation failed")
 
+    except SystemExit as e:
+        # MessageHandler.error() and argparse leave through sys.exit(); report it to the caller like any other failure
+        if e.code in (None, 0):
+            return (True, None)
+        error_output = stderr_capture.getvalue()
+        return (False, error_output or f"Report generation aborted with exit status {e.code}")
+
     except Exception as e:
         error_output = stderr_capture.getvalue()
         return (False, error_output or str(e))
